@@ -8,6 +8,31 @@ TRANSLATOR = "verif-extract (go/ast + go/types translator /repo -> Cql/Gen/*.lea
 HARNESS = "verif-harness correspondence run (differential, sampled; never a substitute for a theorem)"
 
 PROPS = {
+    "C06": {
+        "lean_targets": ["Cql.Props.C06"],
+        "trusted_base": COMMON_TRUST + [TRANSLATOR + " (segment/crc constants, shifts, masks, literals: Gen/CrcFacts.lean)", HARNESS,
+            "Cql/Segment.lean, Cql/Crc.lean: hand-written code-shaped model of segment/*.go and crc/*.go; "
+            "Cql/Spec/Segment.lean: hand transcription of native_protocol_v5.spec §2 (byte order, CRC-24 polynomial/initial value "
+            "and CRC-32 seed bytes are left by the spec to Cassandra's reference code and are taken from it)"],
+        "assumptions": [
+            "the payload compressor is a parameter: the compressed round trip assumes it is lossless on the payload at hand and never "
+            "compresses a non-empty payload to zero bytes (both discharged for the LZ4 wrapper in C08 under the block-format contract)",
+            "io.Reader/io.Writer behaviour (short reads, write errors) is outside the model: a segment is decoded from a byte string",
+        ],
+    },
+    "C08": {
+        "lean_targets": ["Cql.Props.C08"],
+        "trusted_base": COMMON_TRUST + [HARNESS,
+            "Cql/Compress.lean: hand-written model of compression/lz4/lz4.go and compression/snappy/snappy.go (length prefix, empty-message "
+            "cases, buffer-growing loop), compared with the real wrappers on every run with the block functions as oracles",
+            "Lz4Law / SnappyLaw: the contract assumed of github.com/pierrec/lz4/v4 and github.com/golang/snappy block functions "
+            "(total compression, block of the empty input is 00, UncompressBlock restores when the buffer fits and errs when it does not, "
+            "ratio <= 255, CompressBlockBound / MaxEncodedLen); each clause is observed on every harness input but not proved"],
+        "assumptions": [
+            "third-party block codecs satisfy Lz4Law / SnappyLaw (hypotheses of the theorems; satisfiable: literalCodec)",
+            "frame bodies below 2^32 bytes (the 4-byte length prefix); C08_lz4_withLength_prefix_wraps shows the limit is sharp",
+        ],
+    },
     "C13": {
         "lean_targets": ["Cql.Props.C13"],
         "trusted_base": COMMON_TRUST + [TRANSLATOR + " (every integer helper of datacodec/conversions.go and the type-switch tables of the "
@@ -121,6 +146,30 @@ PROPS = {
 }
 
 MANIFEST_TEXT = {
+    "C06": {
+        "text": "Lean theorems over a code-shaped model of segment/*.go and crc/*.go: for every payload of at most 131071 bytes, either "
+                "self-contained flag, with or without a payload compressor, decoding the encoded segment (followed by any bytes) returns "
+                "the payload, flag and lengths and leaves exactly the following bytes; the emitted bytes equal the v5 specification's "
+                "layout (little-endian header fields, 17-bit lengths, flag bit 17/34, CRC-24 over 3/5 header bytes, seeded CRC-32 "
+                "trailer; compressed form only when smaller, else uncompressed-length 0); larger payloads are refused by the encoder; "
+                "all constants tied to the regenerated Gen/CrcFacts.",
+        "design_ref": "DESIGN.md §5 C06",
+        "note": "Trusted: Lean kernel; the hand-written segment/CRC model (byte-for-byte correspondence run incl. an independent reference "
+                "layout in the harness); the compressor is a parameter (see C08).",
+        "technique": "Lean 4 theorems (round trip + refinement to a spec-shaped layout) on a code-shaped model + differential correspondence",
+    },
+    "C08": {
+        "text": "Lean theorems over a model of the LZ4 and Snappy wrappers: under the stated contract of the third-party block functions, "
+                "Decompress(Compress x) = x and DecompressWithLength(CompressWithLength x) = x consuming the whole input, for EVERY byte "
+                "string (empty, any size below the 32-bit prefix, any ratio up to the block format's 255:1 — the buffer-growing loop is "
+                "proved to reach the needed size within its bound); consequences: the frame codec's Lossless premise (C01) and the "
+                "segment codec's LosslessOn premise (C06) hold for these compressors, and a frame with and without the COMPRESSED flag "
+                "decodes to the same body.",
+        "design_ref": "DESIGN.md §5 C08",
+        "note": "Trusted: Lean kernel; the wrapper model (compared with the real wrappers on every run, block functions as oracles); the "
+                "block-codec contract Lz4Law/SnappyLaw is an assumption about third-party code, observed per input, not proved.",
+        "technique": "Lean 4 theorems parametric in a block-codec contract + differential correspondence of the wrapper logic",
+    },
     "C13": {
         "text": "Lean theorems over code regenerated from conversions.go and the numeric codecs: each of the 54 integer helpers, as a "
                 "function on ALL mathematical integers of its source kind, either returns the same value (representable in the target) or "
